@@ -116,7 +116,7 @@ pub(crate) fn parse_directive(jsx_attr: &JSXAttr, is_component: bool) -> Directi
         }
     } else if let Some(JSXAttrValue::Lit(lit)) = &jsx_attr.value {
         modifiers = Some(splitted.map(Atom::from).collect());
-        value = Expr::Lit(lit.clone());
+        value = jsx_lit_to_expr(lit);
     } else {
         modifiers = Some(splitted.map(Atom::from).collect());
         value = Expr::Ident(quote_ident!("").into());
@@ -170,9 +170,22 @@ fn parse_modifiers(exprs: &[Option<ExprOrSpread>]) -> BTreeSet<Atom> {
         .collect()
 }
 
+/// A JSX attribute string keeps its source text as `raw`, which is not a JavaScript string literal
+/// (it may span lines and does not use escapes), so the literal must be re-printed from its value.
+fn jsx_lit_to_expr(lit: &Lit) -> Expr {
+    match lit {
+        Lit::Str(str) => Expr::Lit(Lit::Str(Str {
+            span: str.span,
+            value: str.value.clone(),
+            raw: None,
+        })),
+        lit => Expr::Lit(lit.clone()),
+    }
+}
+
 fn parse_v_text_directive(jsx_attr: &JSXAttr) -> Directive {
     let expr = match &jsx_attr.value {
-        Some(JSXAttrValue::Lit(lit)) => Expr::Lit(lit.clone()),
+        Some(JSXAttrValue::Lit(lit)) => jsx_lit_to_expr(lit),
         Some(JSXAttrValue::JSXExprContainer(JSXExprContainer {
             expr: JSXExpr::Expr(expr),
             ..
@@ -205,7 +218,7 @@ fn parse_v_text_directive(jsx_attr: &JSXAttr) -> Directive {
 
 fn parse_v_html_directive(jsx_attr: &JSXAttr) -> Directive {
     let expr = match &jsx_attr.value {
-        Some(JSXAttrValue::Lit(lit)) => Expr::Lit(lit.clone()),
+        Some(JSXAttrValue::Lit(lit)) => jsx_lit_to_expr(lit),
         Some(JSXAttrValue::JSXExprContainer(JSXExprContainer {
             expr: JSXExpr::Expr(expr),
             ..
